@@ -209,7 +209,7 @@ def _yytext_plus(v, k):
     return v[0] == 'idx' and v[1][0] == 'ld' and v[1][1] == YYTEXT and v[2] == ('c', k)
 
 
-def classify_path(ap):
+def classify_path(ap, matched=None):
     """one action path -> a short class string (see C03 reference decoder)"""
     eff = [x for x in ap.effects if x[0] not in ('qvar',)]
     q = ap.of('qputc')
@@ -263,6 +263,14 @@ def classify_path(ap):
     if ap.returns:
         rv = ap.retval
         r = rv[1] if rv[0] == 'c' else '?'
+        if r == '?' and matched is not None:
+            # "return yytext[k]": known once the matched text is
+            x = rv
+            while x[0] == 'bin' and x[1] in ('sext', 'zext', 'trunc'):
+                x = x[2]
+            k_ = _yytext_index(x)
+            if k_ is not None and k_ < len(matched):
+                r = matched[k_]
         y = ap.yylval()
         ysrc = '?'
         if y is not None:
@@ -382,5 +390,9 @@ def consistent_with(ap, matched, model=None):
 
 def classes_for(model, rule, matched):
     """classes of the action paths of `rule` that are possible when it matched exactly `matched`"""
-    aps = [ap for ap in model.actions[rule] if consistent_with(ap, matched, model)]
-    return sorted(set(classify_path(a) for a in aps))
+    memo = model.__dict__.setdefault('_classes_for', {})
+    key = (rule, bytes(matched))
+    if key not in memo:
+        aps = [ap for ap in model.actions[rule] if consistent_with(ap, matched, model)]
+        memo[key] = sorted(set(classify_path(a, matched) for a in aps))
+    return memo[key]
